@@ -104,3 +104,15 @@ impl Pred {
     { unimplemented!() }
 }
 
+#[verifier::external_body]
+pub fn vx_swap_remove_back<T>(v: &mut VecDeque<T>, i: usize) -> (r: Option<T>)
+    ensures
+        i >= old(v)@.len() ==> r.is_none() && final(v)@ == old(v)@,
+        i < old(v)@.len() ==> r == Some(old(v)@[i as int]) && final(v)@ == (if i as int == old(v)@.len() - 1 { old(v)@.drop_last() } else { old(v)@.update(i as int, old(v)@.last()).drop_last() }),
+{ unimplemented!() }
+#[verifier::external_body]
+pub fn vx_swap_remove_front<T>(v: &mut VecDeque<T>, i: usize) -> (r: Option<T>)
+    ensures
+        i >= old(v)@.len() ==> r.is_none() && final(v)@ == old(v)@,
+        i < old(v)@.len() ==> r == Some(old(v)@[i as int]) && final(v)@ == (if i == 0 { old(v)@.drop_first() } else { old(v)@.update(i as int, old(v)@.first()).drop_first() }),
+{ unimplemented!() }
